@@ -225,10 +225,26 @@ func c09TypeBase(t types.Type) string {
 	return t.String()
 }
 
+// c09SameValue follows v through single-assignment temporaries and through conversions between
+// types of identical underlying type (ssa.ChangeType: `int64(c)` of a `type c int64`), which keep
+// the value bit for bit. Numeric conversions (ssa.Convert) may truncate or round and are NOT
+// looked through.
+func c09SameValue(v ssa.Value) ssa.Value {
+	for i := 0; i < 8; i++ {
+		v = core.Forward(v)
+		ct, ok := v.(*ssa.ChangeType)
+		if !ok {
+			return v
+		}
+		v = ct.X
+	}
+	return v
+}
+
 // c09UnmodifiedArgument decides whether v, inside the option body g, is the argument of the function
 // that created g (a parameter captured by the closure and assigned nowhere), or a parameter of g.
 func c09UnmodifiedArgument(p *core.Prog, g *ssa.Function, v ssa.Value) (ok bool, why string) {
-	v = core.Forward(v)
+	v = c09SameValue(v)
 	if u, isLoad := v.(*ssa.UnOp); isLoad && u.Op == token.MUL {
 		if _, isFV := u.X.(*ssa.FreeVar); isFV {
 			v = u.X
@@ -264,7 +280,7 @@ func c09UnmodifiedArgument(p *core.Prog, g *ssa.Function, v ssa.Value) (ok bool,
 					continue
 				}
 				sites++
-				switch bd := mc.Bindings[idx].(type) {
+				switch bd := c09SameValue(mc.Bindings[idx]).(type) {
 				case *ssa.Parameter:
 				case *ssa.Alloc:
 					nst := 0
@@ -275,7 +291,7 @@ func c09UnmodifiedArgument(p *core.Prog, g *ssa.Function, v ssa.Value) (ok bool,
 								continue
 							}
 							nst++
-							if _, isPar := x.Val.(*ssa.Parameter); !isPar {
+							if _, isPar := c09SameValue(x.Val).(*ssa.Parameter); !isPar {
 								return false, "a captured variable assigned " + core.Describe(x.Val) + " before the option is returned"
 							}
 						case *ssa.MakeClosure:
@@ -397,7 +413,7 @@ func c09r9(r *core.Run, c *c09ctx, need func(o *core.O, fs ...*ssa.Function) boo
 					mine = append(mine, st)
 					r.Fn(core.FuncName(g))
 					if g.Parent() == nil {
-						if _, own := core.Forward(st.Val).(*ssa.Parameter); own {
+						if _, own := c09SameValue(st.Val).(*ssa.Parameter); own {
 							o.Unres("%s: %s sets %s from its own parameter; its callers are not followed", p.InstrPos(st), core.FuncName(g), tf)
 							continue
 						}
